@@ -144,6 +144,25 @@ def run(ctx):
     ctx.seen((kind, L.tolist(), X.tolist()), True)
     ctx.hist('kind', kind)
     ctx.hist('rank', 'k<d' if k < d else 'k=d')
+  # LMNN with several target neighbours on nearly separable classes whose Euclidean neighbourhoods are decided by a nuisance
+  # feature that the transformation down-weights, removes or rotates away: under L the order of the target neighbours by
+  # distance changes, and whole target columns have no active impostor while others do
+  base = np.array([[0., 0.], [0., 3.], [2., 0.], [2., 3.], [0., 6.5], [2., 6.5]])
+  for j, Lg in enumerate([np.diag([1., 0.0625]), np.array([[1., 0.]]), np.array([[0.75, 0.5], [-0.5, 0.75]]), np.diag([1., 0.25])]):
+    jit = fits.grid(0.02 * rng.standard_normal((12, 2)), 10)
+    Xg = np.vstack([base, base + np.array([4.0, 0.])]) + jit
+    yg = np.repeat([0, 1], 6)
+    pg = rng.permutation(12)
+    Xg, yg = Xg[pg], yg[pg]
+    kk, reg = 2, 0.5
+    est = LMNN(n_neighbors=kk, regularization=reg)
+    est.labels_ = np.arange(2)
+    T = est._select_targets(Xg, yg)
+    dfG = _sum_outer_products(Xg, T.flatten(), np.repeat(np.arange(12), kk))
+    G, obj, _ = est._loss_grad(Xg, Lg, dfG, kk, reg, T, yg)
+    terms.append("(c10_lmnn %s %s %s %s %s %s)" % (fhex(reg), gmat(Lg), gmat(Xg), gzlist(yg), glist([gnlist(r) for r in T]), fhex(obj)))
+    recs.append(dict(kind='lmnn', L=Lg, X=Xg, y=yg, T=T, reg=reg, loss=float(obj), grad=np.array(G)))
+    ctx.hist('kind', 'lmnn (nuisance feature)')
   # the gradient handed to the optimiser against the Coq model that the derivative theorem C10_nca_gradient is about
   for i in range(20 if thorough else 6):
     d = int(rng.integers(2, 5))
